@@ -3,7 +3,7 @@ CHECK = {
     "id": "SELFTEST_CONC", "disabled": True,
     "packages": ["./internal/queue"],
     "harness": ["internal/queue/zz_verif_selftest_conc.go"],
-    "entries": [{"fn": P + n, "replay": "model-only"} for n in ("vST_atomic", "vST_race", "vST_mutex", "vST_chan")],
+    "entries": [{"fn": P + n, "replay": "model-only"} for n in ("vST_atomic", "vST_race", "vST_mutex", "vST_chan", "vST_join", "vST_join2")],
     "opts": {"rounds": 3, "unwind": 3},
     "explanation": "self-test of the concurrency layer",
 }
